@@ -470,9 +470,7 @@ theorem loopIdxSel_sound (cfg : Cfg) (n : Nat) (vals : List Int) (mul off : Int)
     (hsafe : LoopSafe cfg vals mul off) (h : loopIdxSel cfg n n vals mul off = some ps) :
     InRange n (vals.map (fun v => mul * v + off)) ∧ ps = pos (vals.map (fun v => mul * v + off)) := by
   unfold loopIdxSel at h
-  by_cases h0 : vals = [] ∧ ¬ (mul = 1 ∧ off = 0)
-  · rw [if_pos h0] at h; cases h
-  · rw [if_neg h0] at h
+  · dsimp only at h
     by_cases hchk : cfg.loopCheck = true ∧
         (vals.map (fun v => mul * v + off)).any (fun i => decide (i < 1 ∨ i > (n : Int))) = true
     · rw [if_pos hchk] at h; cases h
@@ -513,9 +511,7 @@ theorem loopIdxSel_oob (cfg : Cfg) (n : Nat) (vals : List Int) (mul off : Int)
     loopIdxSel cfg n n vals mul off = none := by
   obtain ⟨v, hv, hbad⟩ := h
   unfold loopIdxSel
-  by_cases h0 : vals = [] ∧ ¬ (mul = 1 ∧ off = 0)
-  · rw [if_pos h0]
-  · rw [if_neg h0]
+  · dsimp only
     by_cases hchk : cfg.loopCheck = true ∧
         (vals.map (fun v => mul * v + off)).any (fun i => decide (i < 1 ∨ i > (n : Int))) = true
     · rw [if_pos hchk]
